@@ -323,7 +323,7 @@ def run_check(pid, tier, seed, replay=None):
     for line in out:
         print(line)
     nworkers = NWORKERS
-    total = prop.budget(tier)
+    total = int(os.environ.get('VERIF_BUDGET') or 0) or prop.budget(tier)  # VERIF_BUDGET: development aid, never set by the registered commands
     per = (total + nworkers - 1) // nworkers if total else 0
     args = [(pid, tier, seed, w, nworkers, per) for w in range(nworkers)]
     ctxm = mp.get_context('fork')
@@ -357,6 +357,8 @@ def run_check(pid, tier, seed, replay=None):
         for k in sorted(sv):
             print('%6d %s\n       case=%s\n       detail=%s' % (merged['counters'][k], k, json.dumps(sv[k][0], default=str)[:700],
                                                               json.dumps(sv[k][1]['detail'], default=str)[:700]))
+        if os.environ.get('VERIF_SURVEY_OUT'):
+            json.dump({k: v for k, v in sv.items()}, open(os.environ['VERIF_SURVEY_OUT'], 'w'), default=str)
     wall = time.time() - t0
     for kid, n in sorted(merged['known'].items()):
         print('known-finding-hits %s: %d generated cases fell into this listed finding' % (kid, n))
